@@ -3,6 +3,7 @@ package rules
 import (
 	"fmt"
 	"go/types"
+	"sort"
 	"strings"
 
 	"golang.org/x/tools/go/ssa"
@@ -198,4 +199,192 @@ func tokenNameFixed(c *Ctx, rule, consequence string) {
 		}
 	}
 	R.Role(rule, "stores to the current token", n, 1)
+}
+
+// optionsSurviveInit: a Policy that already exists is only ever updated field by field.  A store of a whole Policy value
+// through a pointer that was not allocated in the storing function (`*p = Policy{…}` on the receiver — a "tidier" lazy
+// init) resets every option the literal does not name: options set before the first rule (on a zero-value Policy{}) are
+// silently lost.
+func optionsSurviveInit(c *Ctx, rule, consequence string) {
+	R := c.R
+	n, nBad := 0, 0
+	for _, fn := range moduleFuncs(c.P) {
+		if fn.Pkg == nil || fn.Pkg.Pkg.Path() != "github.com/microcosm-cc/bluemonday" {
+			continue
+		}
+		cnt := 0
+		for _, b := range fn.Blocks {
+			for _, in := range b.Instrs {
+				st, ok := in.(*ssa.Store)
+				if !ok || !isPolicyPtr(st.Addr.Type()) {
+					continue
+				}
+				n++
+				if _, fresh := st.Addr.(*ssa.Alloc); fresh {
+					continue // a policy being created here
+				}
+				cnt++
+				nBad++
+				R.Fail(rule, fmt.Sprintf("whole-store:%s#%d", pa.CalleeName(fn), cnt), pa.CalleeName(fn)+": store of a whole Policy value through "+stripIDs(st.Addr.Name()), c.P.Pos(st.Pos()), "an existing policy is overwritten as a whole: every option and rule the stored value does not carry is reset — "+consequence)
+			}
+		}
+	}
+	if nBad == 0 {
+		R.OK(rule, "whole-store:none", fmt.Sprintf("module functions: %d stores of whole Policy values, all into policies allocated by the storing function", n), "", "existing policies are only updated field by field")
+	}
+}
+
+// noInternalPatternRegistration (C01.R9): the functions that store into the element-pattern tables are the exported
+// pattern builders, and nothing in the module calls them — every element pattern of a policy was handed in by the
+// caller.  A library-side registration (a convenience that maps "globally" onto a match-all element pattern) would admit
+// elements the user never allowed.
+func noInternalPatternRegistration(c *Ctx, rule string) {
+	R := c.R
+	F := model.FindFields(c.P)
+	field := F.Get("elsMatchingAndAttrs")
+	if field == "" {
+		R.Unknown(rule, "field", "Policy element-pattern table", "", "role not resolvable")
+		return
+	}
+	writers := map[*ssa.Function]bool{}
+	for _, fn := range moduleFuncs(c.P) {
+		for _, b := range fn.Blocks {
+			for _, in := range b.Instrs {
+				if mu, ok := in.(*ssa.MapUpdate); ok && model.LoadedPolicyField(mu.Map) == field {
+					writers[fn] = true
+				}
+			}
+		}
+	}
+	n := 0
+	for _, fn := range moduleFuncs(c.P) {
+		cnt := 0
+		for _, b := range fn.Blocks {
+			for _, in := range b.Instrs {
+				ci, ok := in.(ssa.CallInstruction)
+				if !ok {
+					continue
+				}
+				cal := ci.Common().StaticCallee()
+				if cal == nil || !writers[cal] {
+					continue
+				}
+				cnt++
+				n++
+				R.Fail(rule, fmt.Sprintf("internal-call:%s->%s#%d", pa.CalleeName(fn), pa.CalleeName(cal), cnt), pa.CalleeName(fn)+": call of "+pa.CalleeName(cal), c.P.Pos(in.Pos()), "the library itself registers an element pattern: elements matching it are admitted although the user's policy never allowed them")
+			}
+		}
+	}
+	var ws []string
+	for w := range writers {
+		ws = append(ws, pa.CalleeName(w))
+	}
+	sort.Strings(ws)
+	R.Role(rule, "functions storing into the element-pattern table", len(writers), 1)
+	if n == 0 {
+		R.OK(rule, "internal-call:none", "writers of the element-pattern table: "+strings.Join(ws, ", "), "", "none of them is called from within the module")
+	}
+}
+
+// namesAsDelivered (C07.R9): in (*Policy).sanitize every lookup in a policy table keyed by element name, and every
+// element-name argument handed to the module's own functions, is token.Data itself — the tokenizer's lower-cased name,
+// which is what the builders store (strings.ToLower).  A transformed name (escaped, re-quoted, trimmed) no longer matches
+// the rule registered for an element whose name the transformation changes.
+func namesAsDelivered(c *Ctx, rule string) {
+	R := c.R
+	s, err := model.FindSan(c.P)
+	if err != nil {
+		R.Unknown(rule, "sanitize", "(*Policy).sanitize", "", err.Error())
+		return
+	}
+	n := 0
+	cnt := map[string]int{}
+	for _, b := range s.Fn.Blocks {
+		arm := s.ArmOf(b)
+		if arm != "StartTag" && arm != "EndTag" && arm != "SelfClosingTag" {
+			continue
+		}
+		for _, in := range b.Instrs {
+			switch x := in.(type) {
+			case *ssa.Lookup:
+				f := model.LoadedPolicyField(x.X)
+				if f == "" {
+					continue
+				}
+				if bt, ok := x.Index.Type().Underlying().(*types.Basic); !ok || bt.Info()&types.IsString == 0 {
+					continue
+				}
+				n++
+				cnt[f+arm]++
+				R.Check(s.TokenField(x.Index) == "Data", rule, fmt.Sprintf("lookup:%s:%s#%d", arm, f, cnt[f+arm]), "(*Policy).sanitize arm "+arm+": lookup in "+f, c.P.Pos(x.Pos()), "keyed by token.Data", "the table is consulted with "+stripIDs(s.A.Sym.Of(x.Index))+" instead of the name the tokenizer delivered: an element whose name that transformation changes no longer finds its own rule")
+			case *ssa.Call:
+				cal := x.Common().StaticCallee()
+				if cal == nil || cal.Pkg == nil || cal.Pkg.Pkg.Path() != "github.com/microcosm-cc/bluemonday" || cal.Signature.Recv() == nil || !isPolicyPtr(cal.Signature.Recv().Type()) {
+					continue
+				}
+				if len(x.Common().Args) < 2 {
+					continue
+				}
+				a := x.Common().Args[1]
+				if bt, ok := a.Type().Underlying().(*types.Basic); !ok || bt.Info()&types.IsString == 0 {
+					continue
+				}
+				n++
+				cnt[cal.Name()+arm]++
+				R.Check(s.TokenField(a) == "Data", rule, fmt.Sprintf("call:%s:%s#%d", arm, cal.Name(), cnt[cal.Name()+arm]), "(*Policy).sanitize arm "+arm+": "+pa.CalleeName(cal)+"(name, …)", c.P.Pos(x.Pos()), "called with token.Data", "called with "+stripIDs(s.A.Sym.Of(a))+" instead of the name the tokenizer delivered")
+			}
+		}
+	}
+	R.Role(rule, "element-name lookups and calls in the tag arms", n, 6)
+}
+
+// matchedIsSticky: in matchRegex the boolean result, once true, stays true for the rest of the scan (it is only ever
+// assigned the constant true inside the loop) — otherwise the verdict depends on which pattern the map iteration visits
+// last, and the arms that use matchRegex disagree with the end-tag arm's own scan.
+func matchedIsSticky(c *Ctx, rule string) {
+	R := c.R
+	fn := c.P.Func("github.com/microcosm-cc/bluemonday", "(*Policy).matchRegex")
+	if fn == nil {
+		R.Unknown(rule, "matchRegex", "(*Policy).matchRegex", "", "function not found")
+		return
+	}
+	n := 0
+	for _, l := range model.RangeLoopsAll(fn) {
+		if !l.IsMap {
+			continue
+		}
+		for _, in := range l.Header.Instrs {
+			ph, ok := in.(*ssa.Phi)
+			if !ok || ph.Type().String() != "bool" {
+				continue
+			}
+			n++
+			bad := ""
+			for i, pred := range l.Header.Preds {
+				if !l.Blocks[pred] {
+					continue
+				}
+				var chk func(v ssa.Value, d int) bool
+				chk = func(v ssa.Value, d int) bool {
+					if v == ssa.Value(ph) || model.IsTrue(v) {
+						return true
+					}
+					if p2, ok := v.(*ssa.Phi); ok && d < 4 && l.Blocks[p2.Block()] {
+						for _, e := range p2.Edges {
+							if !chk(e, d+1) {
+								return false
+							}
+						}
+						return true
+					}
+					return false
+				}
+				if !chk(ph.Edges[i], 0) {
+					bad = "on the back edge from block " + pred.String() + " the flag receives " + stripIDs(ph.Edges[i].Name()) + " (a value of the current iteration)"
+				}
+			}
+			R.Check(bad == "", rule, fmt.Sprintf("matchRegex:flag#%d", n), "(*Policy).matchRegex: boolean carried around the pattern scan", c.P.Pos(ph.Pos()), "only ever set to true inside the scan", "the match flag is not sticky: "+bad+" — an element admitted by one pattern is reported as not admitted when a non-matching pattern is visited later (map order), so its start tag and end tag can be judged differently")
+		}
+	}
+	R.Role(rule, "flags carried around matchRegex's pattern scan", n, 1)
 }
